@@ -150,7 +150,21 @@ def run_once_isolated(ctx):
         ctx.ob(f.qualname, f'run {attr} then rebind to [] under {lock}', ok, why, node=f.node)
         if len(loops) == 1:
             lp = loops[0]
-            early = [n for n in ast.walk(lp) if isinstance(n, (ast.Break, ast.Return, ast.Continue))]
+            def _tail_continue(n):
+                # `continue` as the last statement of the loop body, or of a handler / branch that is itself last: the iteration was over anyway
+                node = n
+                while node is not lp:
+                    par = node._parent
+                    blocks = [getattr(par, fld, None) for fld in ('body', 'orelse', 'finalbody')] + ([par.handlers] if isinstance(par, ast.Try) else [])
+                    if isinstance(par, ast.ExceptHandler):
+                        blocks = [par.body]
+                    if not any(isinstance(b, list) and b and b[-1] is node for b in blocks):
+                        return False
+                    if isinstance(par, ast.Try) and node in par.body and (par.orelse or par.finalbody):
+                        return False
+                    node = par
+                return True
+            early = [n for n in ast.walk(lp) if isinstance(n, (ast.Break, ast.Return)) or (isinstance(n, ast.Continue) and not _tail_continue(n))]
             ctx.ob(f.qualname, f'every element of {attr} is run: no break/return/continue in the loop', not early and isinstance(lp.target, ast.Name),
                    'every registered callback runs, in registration order', node=lp)
             if isinstance(lp.target, ast.Name):
